@@ -513,6 +513,30 @@ theorem classToTable_inr {cls : ClassDef} {tbl : TableCall} (h : classToTable cl
 
 theorem columnName_mergeName (t : Str) (c : ColumnCall) : columnName (mergeName t c).args = .ok (setValueStr t) := rfl
 
+/-- `parse.sqlalchemy_table(Assign)` is `parse.sqlalchemy_table(Call)` of the bound call -/
+theorem parseTable_reduces {a : Str × TableCall} {ir : ParsedIR} (h : parseTable a = .ok ir) :
+    parseTableCall a.2 = .ok ir := by
+  unfold parseTable at h
+  split at h
+  · cases h
+  · exact h
+
+/-- an assignment target a Python class body can have, as far as the name clause cares: non-empty, no asterisk, no
+    leading quote (every identifier, ASCII or not) -/
+def TargetOk (t : Str) : Prop := GoodName t ∧ t.head? ≠ some '"' ∧ t.head? ≠ some '\''
+
+theorem targetOk_of_identifier {t : Str} (h : isIdentifier t = true) : TargetOk t := by
+  refine ⟨isIdentifier_good h, ?_, ?_⟩
+  all_goals
+    cases t with
+    | nil => simp
+    | cons c cs =>
+      simp only [isIdentifier, Bool.and_eq_true] at h
+      have hc := h.1
+      intro e
+      simp only [List.head?_cons, Option.some.injEq] at e
+      subst e; revert hc; decide
+
 end Sql.WF
 
 /-! ## JSON schema -/
